@@ -273,6 +273,14 @@ theorem lowerE_mono : ∀ (e : Expr) (c : Nat) (code : Code) (v : Value) (c' : N
     have ⟨m2, b2⟩ := lowerE_mono r _ cr vr c2 h2
     have ⟨a2, _⟩ := atv_spec vr c2 b2
     exact ⟨by omega, trivial⟩
+  | .eqH ne l r, c, code, v, c', h => by
+    simp [lowerE, Option.bind_eq_some_iff] at h
+    obtain ⟨cl, vl, c1, h1, cr, vr, c2, h2, _, rfl, rfl⟩ := h
+    have ⟨m1, b1⟩ := lowerE_mono l c cl vl c1 h1
+    have ⟨a1, _⟩ := atv_spec vl c1 b1
+    have ⟨m2, b2⟩ := lowerE_mono r _ cr vr c2 h2
+    have ⟨a2, _⟩ := atv_spec vr c2 b2
+    exact ⟨by omega, trivial⟩
   | .and l r, c, code, v, c', h => by
     simp [lowerE, Option.bind_eq_some_iff] at h
     obtain ⟨cl, vl, c1, h1, cr, vr, c2, h2, _, rfl, rfl⟩ := h
@@ -552,6 +560,7 @@ def Value.vars : Value → List Var
   | .clone x => [x]
   | .move x => [x]
   | .binop l _ r => [l, r]
+  | .eqHost l _ r => [l, r]
   | .not x => [x]
   | .neg x => [x]
   | .callRt _ args => args
@@ -619,6 +628,16 @@ theorem lowerE_valueBound (e : Expr) (c : Nat) (code : Code) (v : Value) (c' : N
     obtain ⟨_, rfl', _, hlt⟩ := (lowerArgs_mono args c a b c1 h1).2 _ (by simpa [Value.vars] using hk)
     cases rfl'; exact hlt
   | bin op l r =>
+    simp [lowerE, Option.bind_eq_some_iff] at h
+    obtain ⟨cl, vl, c1, h1, cr, vr, c2, h2, _, rfl, rfl⟩ := h
+    have ⟨m1, b1⟩ := lowerE_mono l c cl vl c1 h1
+    have ⟨m2, b2⟩ := lowerE_mono r _ cr vr c2 h2
+    have ⟨a2, _⟩ := atv_spec vr c2 b2
+    simp [Value.vars] at hk
+    rcases hk with hk | hk
+    · have := atv_bound vl c1 b1 hk.symm; omega
+    · exact atv_bound vr c2 b2 hk.symm
+  | eqH ne l r =>
     simp [lowerE, Option.bind_eq_some_iff] at h
     obtain ⟨cl, vl, c1, h1, cr, vr, c2, h2, _, rfl, rfl⟩ := h
     have ⟨m1, b1⟩ := lowerE_mono l c cl vl c1 h1
@@ -943,6 +962,7 @@ theorem lowerE_moveLower (e : Expr) (c : Nat) (code : Code) (x : Var) (c' : Nat)
   | host f args => simp [lowerE, Option.bind_eq_some_iff] at h
   | call f args => simp [lowerE, Option.bind_eq_some_iff] at h
   | bin op l r => simp [lowerE, Option.bind_eq_some_iff] at h
+  | eqH ne l r => simp [lowerE, Option.bind_eq_some_iff] at h
   | not e1 => simp [lowerE, Option.bind_eq_some_iff] at h
   | neg e1 => simp [lowerE, Option.bind_eq_some_iff] at h
   | «while» cnd b => simp [lowerE, Option.bind_eq_some_iff] at h
